@@ -12,7 +12,9 @@ EXTENDS Integers, Sequences, FiniteSets, TLC
 
 \* CBOR kinds a node can be replaced by
 Kinds == {"uint0", "nint", "bstr0", "bstr1", "tstr1", "arr0", "arr1", "map0", "map1", "null", "true", "float", "wrongtag",
-          "tag107int", "hff", "u64max", "wrapped", "bare", "dup", "drop"}
+          "tag107int", "hff", "u64max", "wrapped", "bare", "dup", "drop",
+          \* maps WITHOUT the key 0 (integer, negative, text key), an array of maps, simple values and undefined
+          "mapk1", "mapkneg", "mapktext", "arrmap", "undefined", "simple32", "false"}
 
 CleanOutcomes == {"model", "ValueError", "SUITError"}
 
